@@ -327,12 +327,12 @@ pub fn check_prims(ops: &[WOp], model: &mut Model, rep: &mut Report, origin: &st
                 .is_err()
             });
             let sig = classify_prim(culprit.unwrap_or(&ops[0]), true);
-            rep.oracle_fail(&sig, json!({"origin": origin, "case": "prims", "what": "writer panicked", "ops": ops_json(ops), "replay_ops": ops_replay(ops)}));
+            ofail(rep, &sig, json!({"origin": origin, "case": "prims", "what": "writer panicked", "ops": ops_json(ops), "replay_ops": ops_replay(ops)}));
             return;
         }
     };
     if werr {
-        rep.oracle_fail("C05:prims:writer-error-on-vec", json!({"origin": origin, "case": "prims", "replay_ops": ops_replay(ops)}));
+        ofail(rep, "C05:prims:writer-error-on-vec", json!({"origin": origin, "case": "prims", "replay_ops": ops_replay(ops)}));
     }
     // ---- read back: real vs model
     let names = rops_of(ops);
@@ -355,7 +355,7 @@ pub fn check_prims(ops: &[WOp], model: &mut Model, rep: &mut Report, origin: &st
         for (i, (op, real)) in rops.iter().enumerate() {
             if rv[i] != written_val(op, real) {
                 let sig = classify_prim(op, false);
-                rep.oracle_fail(
+                ofail(rep, 
                     &sig,
                     json!({"origin": origin, "case": "prims", "position": i, "ops": ops_json(ops), "read_back": format!("{:?}", trunc_dbg(&rv[i..i + 1])), "replay_ops": ops_replay(ops)}),
                 );
@@ -364,13 +364,13 @@ pub fn check_prims(ops: &[WOp], model: &mut Model, rep: &mut Report, origin: &st
             }
         }
         if !failed && re {
-            rep.oracle_fail("C05:prims:reader-error-on-own-output", json!({"origin": origin, "case": "prims", "replay_ops": ops_replay(ops)}));
+            ofail(rep, "C05:prims:reader-error-on-own-output", json!({"origin": origin, "case": "prims", "replay_ops": ops_replay(ops)}));
         }
         if !failed {
             rep.count("prim_roundtrip_ok");
         }
     } else {
-        rep.oracle_fail("C05:prims:reader-panic", json!({"origin": origin, "case": "prims", "replay_ops": ops_replay(ops)}));
+        ofail(rep, "C05:prims:reader-panic", json!({"origin": origin, "case": "prims", "replay_ops": ops_replay(ops)}));
     }
 }
 
@@ -1115,7 +1115,7 @@ pub fn check_fsm(c: &FsmCase, big: bool, model: &mut Model, rep: &mut Report, or
         Some(w) => w,
         None => {
             rep.count("fsm_writer_panics");
-            rep.oracle_fail(&classify_fsm(&orig, true), case_json(c, origin));
+            ofail(rep, &classify_fsm(&orig, true), case_json(c, origin));
             return;
         }
     };
@@ -1126,7 +1126,7 @@ pub fn check_fsm(c: &FsmCase, big: bool, model: &mut Model, rep: &mut Report, or
         _ => ">=5000",
     }));
     if w.has_error {
-        rep.oracle_fail("C05:fsm:writer-error-on-vec", case_json(c, origin));
+        ofail(rep, "C05:fsm:writer-error-on-vec", case_json(c, origin));
     }
     dbg("read back");
     // ---- read back: real vs model
@@ -1148,7 +1148,7 @@ pub fn check_fsm(c: &FsmCase, big: bool, model: &mut Model, rep: &mut Report, or
         let mut j = case_json(c, origin);
         j["what"] = json!("re-read model differs from the original in a persisted field");
         j["detail"] = json!(first_diff(&want, &back_s));
-        rep.oracle_fail(&classify_fsm(&orig, false), j);
+        ofail(rep, &classify_fsm(&orig, false), j);
     } else {
         rep.count("fsm_roundtrip_structural_ok");
         // the same predicate, decided by the Lean driver on the two dumps
@@ -1184,7 +1184,7 @@ pub fn check_fsm(c: &FsmCase, big: bool, model: &mut Model, rep: &mut Report, or
                 let mut j = case_json(c, origin);
                 j["what"] = json!("trace of the reloaded machine differs");
                 j["detail"] = json!({"at": k, "original": ta.get(k), "reloaded": tb.get(k), "panicked": [a.panicked, b.panicked]});
-                rep.oracle_fail("C05:behaviour:trace-differs", j);
+                ofail(rep, "C05:behaviour:trace-differs", j);
             } else {
                 rep.count("behaviour_traces_equal");
             }
@@ -1317,6 +1317,479 @@ pub fn run(args: &Args, model: &mut Model) -> Report {
 // C18
 // =====================================================================================
 
-pub fn run_c18(_args: &Args, _model: &mut Model) -> Report {
-    Report::new("c18", "not yet")
+#[derive(Clone, Debug)]
+pub enum Fault {
+    /// the call accepts at most k bytes
+    Acc(usize),
+    Err,
+}
+
+/// scripted `std::io::Write`: call `i` (0-based over the whole run) answers by `script[i]`, all
+/// other calls accept everything
+pub struct Faulty {
+    pub out: Vec<u8>,
+    pub calls: usize,
+    pub script: HashMap<usize, Fault>,
+    pub flush_fails: bool,
+    /// lengths requested by each call (to classify what a fault hit)
+    pub requested: Vec<usize>,
+}
+
+impl Write for Faulty {
+    fn write(&mut self, buf: &[u8]) -> std::io::Result<usize> {
+        let i = self.calls;
+        self.calls += 1;
+        self.requested.push(buf.len());
+        match self.script.get(&i) {
+            Some(Fault::Acc(k)) => {
+                let n = (*k).min(buf.len());
+                self.out.extend_from_slice(&buf[..n]);
+                Ok(n)
+            }
+            Some(Fault::Err) => Err(std::io::Error::new(std::io::ErrorKind::Other, "injected")),
+            None => {
+                self.out.extend_from_slice(buf);
+                Ok(buf.len())
+            }
+        }
+    }
+    fn flush(&mut self) -> std::io::Result<()> {
+        if self.flush_fails {
+            Err(std::io::Error::new(std::io::ErrorKind::Other, "injected flush"))
+        } else {
+            Ok(())
+        }
+    }
+}
+
+fn script_string(script: &[(usize, Fault)]) -> String {
+    if script.is_empty() {
+        ".".to_string()
+    } else {
+        script
+            .iter()
+            .map(|(i, f)| match f {
+                Fault::Acc(k) => format!("{}:a{}", i, k),
+                Fault::Err => format!("{}:e", i),
+            })
+            .collect::<Vec<_>>()
+            .join(",")
+    }
+}
+
+pub struct SinkRun {
+    pub panicked: bool,
+    pub out: Vec<u8>,
+    pub has_error: bool,
+    pub calls: usize,
+    pub requested: Vec<usize>,
+}
+
+impl SinkRun {
+    fn line(&self) -> String {
+        format!("{} {} {} {}", if self.panicked { "panic" } else { "done" }, hex(&self.out), if self.has_error { 0 } else { 1 }, self.calls)
+    }
+}
+
+fn faulty(script: &[(usize, Fault)], flush_fails: bool) -> Faulty {
+    Faulty { out: vec![], calls: 0, script: script.iter().cloned().collect(), flush_fails, requested: vec![] }
+}
+
+/// the real FsmWriter (write + close) over a scripted sink
+pub fn real_sink_fsm(fsm: &Fsm, script: &[(usize, Fault)], flush_fails: bool) -> SinkRun {
+    let mut w: FsmWriter<Faulty> = FsmWriter::new(Box::new(DefaultProtocolWriter::new(faulty(script, flush_fails))));
+    let r = catch_unwind(AssertUnwindSafe(|| {
+        w.write(fsm);
+        w.close();
+    }));
+    let f = w.get_writer();
+    SinkRun { panicked: r.is_err(), out: f.out.clone(), has_error: w.writer.has_error(), calls: f.calls, requested: f.requested.clone() }
+}
+
+pub fn real_sink_prims(ops: &[(WOp, Option<Data>)], script: &[(usize, Fault)], flush_fails: bool) -> SinkRun {
+    let mut w = DefaultProtocolWriter::new(faulty(script, flush_fails));
+    let r = catch_unwind(AssertUnwindSafe(|| {
+        real_write(&mut w, ops);
+    }));
+    SinkRun { panicked: r.is_err(), out: w.writer.out.clone(), has_error: w.has_error(), calls: w.writer.calls, requested: w.writer.requested.clone() }
+}
+
+/// the oracle for one faulty run, given the complete image
+fn sink_oracle(run: &SinkRun, full: &[u8], script: &[(usize, Fault)], flush_fails: bool, rep: &mut Report, ctx: Value) {
+    if run.panicked {
+        return; // a writer panic belongs to C05 (strings >= 4096)
+    }
+    let mut failing_reached = false;
+    let mut short_reached = false;
+    for (i, f) in script {
+        if *i < run.calls {
+            let req = run.requested[*i];
+            match f {
+                Fault::Err => failing_reached = true,
+                // fewer bytes than offered, without an error (k = 0 included: `write_all` turns that
+                // into an error, a plain `write` does not)
+                Fault::Acc(k) if *k < req => short_reached = true,
+                _ => {}
+            }
+        }
+    }
+    if flush_fails && !run.has_error {
+        ofail(rep, "C18:write:flush-error-not-visible", ctx.clone());
+    }
+    if failing_reached {
+        rep.count("sink_failing_call_reached");
+        if !run.has_error {
+            ofail(rep, "C18:write:error-not-visible", ctx.clone());
+        }
+    }
+    if short_reached && !failing_reached {
+        rep.count("sink_short_call_reached");
+        if run.out == full {
+            rep.count("sink_short_call_complete_image");
+        } else if run.has_error {
+            rep.count("sink_short_call_reported_as_error");
+        } else {
+            ofail(rep, "C18:write:short-write-loses-data:silent", ctx);
+        }
+    }
+}
+
+/// at most a few replayable examples per signature (the report keeps the first 200 overall), all counted
+fn ofail(rep: &mut Report, sig: &str, v: Value) {
+    let key = format!("oracle_fail[{}]", sig);
+    let n = rep.dist.get(&key).cloned().unwrap_or(0);
+    rep.count(&key);
+    if n < 6 {
+        rep.oracle_fail(sig, v);
+    } else {
+        rep.count("oracle_failures");
+    }
+}
+
+fn script_json(script: &[(usize, Fault)]) -> Value {
+    json!(script_string(script))
+}
+
+fn parse_script(s: &str) -> Vec<(usize, Fault)> {
+    if s == "." {
+        return vec![];
+    }
+    s.split(',')
+        .map(|e| {
+            let (i, r) = e.split_once(':').unwrap();
+            (i.parse().unwrap(), if r == "e" { Fault::Err } else { Fault::Acc(r[1..].parse().unwrap()) })
+        })
+        .collect()
+}
+
+pub fn check_sink_prims(ops: &[WOp], script: &[(usize, Fault)], flush: bool, model: &mut Model, rep: &mut Report, origin: &str) {
+    rep.evaluations += 1;
+    rep.count("sink_prim_cases");
+    let rops = realise(ops);
+    let run = real_sink_prims(&rops, script, flush);
+    let m = model.ask(&format!("codec sink {} {} {}", script_string(script), if flush { 1 } else { 0 }, wops_tokens(&rops)));
+    rep.nontrivial.insert(format!("SP|{:x}|{}", fxhash(wops_tokens(&rops).as_bytes()), script_string(script)));
+    if m != run.line() {
+        rep.disagree(json!({"origin": origin, "what": "sink prims", "script": script_json(script), "ops": ops_json(ops), "impl": short(&run.line()), "model": short(&m), "replay_ops": ops_replay(ops)}));
+    }
+    let full = catch_unwind(AssertUnwindSafe(|| {
+        let mut w = DefaultProtocolWriter::new(Vec::new());
+        real_write(&mut w, &rops);
+        w.writer.clone()
+    }));
+    if let Ok(full) = full {
+        sink_oracle(&run, &full, script, false, rep, json!({"origin": origin, "case": "sink-prims", "script": script_json(script), "replay_ops": ops_replay(ops)}));
+    }
+}
+
+fn prefix_signature(kind: &str, full: &str) -> Option<String> {
+    match kind {
+        "cantread" | "version" => None,
+        "panic" => {
+            if full.starts_with("panic binding:") {
+                Some("C18:read:prefix:panic:binding-ordinal".into())
+            } else {
+                Some(format!("C18:read:prefix:panic:{}", full.split(' ').nth(1).unwrap_or("?").split(':').next().unwrap_or("?")))
+            }
+        }
+        "ok" => {
+            if full.starts_with("ok 1") {
+                Some("C18:read:prefix:ok-partial-model".into())
+            } else {
+                Some("C18:read:prefix:ok-without-error-flag".into())
+            }
+        }
+        _ => Some(format!("C18:read:prefix:{}", kind)),
+    }
+}
+
+pub fn check_c18_fsm(c: &FsmCase, thorough: bool, p: &mut Prng, model: &mut Model, rep: &mut Report, origin: &str) {
+    dbg(&format!("c18 case {} xml={}", origin, short(&c.xml)));
+    let fsm = match build_fsm(c, false, rep) {
+        Ok(f) => f,
+        Err(e) => {
+            rep.disagree(json!({"origin": origin, "what": "generator produced a document the XML reader rejects", "error": e, "xml": short(&c.xml)}));
+            return;
+        }
+    };
+    let orig = match MFsm::from_real(&fsm) {
+        Ok(m) => m,
+        Err(e) => {
+            rep.disagree(json!({"origin": origin, "what": "dump", "error": e}));
+            return;
+        }
+    };
+    let tokens = orig.tokens();
+    let w = match real_write_image(&fsm) {
+        Some(w) => w,
+        None => {
+            rep.count("c18_skipped_writer_panics");
+            return;
+        }
+    };
+    let img = w.bytes;
+    rep.add("image_bytes_total", img.len() as u64);
+    // -------- (iv-a) prefixes
+    let bounds: Vec<usize> = model
+        .ask(&format!("codec bounds-fsm {}", tokens))
+        .split(',')
+        .filter_map(|x| x.parse::<usize>().ok())
+        .collect();
+    if bounds.last() != Some(&img.len()) {
+        rep.disagree(json!({"origin": origin, "what": "model image length differs", "impl_len": img.len(), "model_last_bound": bounds.last()}));
+    }
+    let all_limit = if thorough { 2500 } else { 420 };
+    let mut cuts: Vec<usize> = Vec::new();
+    if img.len() <= all_limit {
+        cuts.extend(0..img.len());
+        rep.count("prefix_images_all_cuts");
+    } else {
+        rep.count("prefix_images_sampled_cuts");
+        cuts.extend(0..40.min(img.len()));
+        cuts.extend(img.len().saturating_sub(24)..img.len());
+        let nb = if thorough { 400 } else { 60 };
+        for _ in 0..nb {
+            let b = *p.pick(&bounds);
+            for d in [-1i64, 0, 1] {
+                let n = b as i64 + d;
+                if n >= 0 && (n as usize) < img.len() {
+                    cuts.push(n as usize);
+                }
+            }
+        }
+        for _ in 0..nb {
+            cuts.push(p.below(img.len() as u64) as usize);
+        }
+        cuts.sort();
+        cuts.dedup();
+    }
+    for n in cuts {
+        rep.evaluations += 1;
+        dbg(&format!("cut {} of {}", n, img.len()));
+        let pre = &img[..n];
+        let r = real_read_image(pre);
+        let rs = readout_string(&r);
+        let ms = canon_model_answer(&model.ask(&format!("codec dec-fsm {}", hex(pre))));
+        let kind = readout_kind(&rs).to_string();
+        rep.count(&format!("prefix_result_{}", kind));
+        rep.nontrivial.insert(format!("X|{:x}|{}", fxhash(&img), n));
+        if rs != ms {
+            let mut j = case_json(c, origin);
+            j["what"] = json!("prefix read");
+            j["cut"] = json!(n);
+            j["detail"] = json!(first_diff(&ms, &rs));
+            rep.disagree(j);
+        }
+        let o = model.ask(&format!("codec oracle-prefix {}", kind));
+        if let Some(sig) = prefix_signature(&kind, &rs) {
+            if o != "0" {
+                rep.disagree(json!({"origin": origin, "what": "oracle-prefix disagrees", "kind": kind, "answer": o}));
+            }
+            let mut j = case_json(c, origin);
+            j["case"] = json!("prefix");
+            j["cut"] = json!(n);
+            j["image_len"] = json!(img.len());
+            j["result"] = json!(short(&rs));
+            ofail(rep, &sig, j);
+        } else if o != "1" {
+            rep.disagree(json!({"origin": origin, "what": "oracle-prefix disagrees", "kind": kind, "answer": o}));
+        }
+    }
+    // the complete image must read without error
+    {
+        rep.evaluations += 1;
+        let rs = readout_string(&real_read_image(&img));
+        if !rs.starts_with("ok 0") {
+            let mut j = case_json(c, origin);
+            j["case"] = json!("full-image");
+            j["result"] = json!(short(&rs));
+            ofail(rep, "C18:read:full-image-not-ok", j);
+        }
+    }
+    // -------- (iv-b) scripted sinks (every request carries the whole model: small models only)
+    if tokens.len() > 24000 {
+        rep.count("sink_skipped_large_model");
+        return;
+    }
+    let oc = model.ask(&format!("codec ops-fsm {}", tokens));
+    let calls: usize = oc.split(' ').nth(1).and_then(|x| x.parse().ok()).unwrap_or(0);
+    let probe = real_sink_fsm(&fsm, &[], false);
+    if probe.calls != calls || probe.out != img {
+        rep.disagree(json!({"origin": origin, "what": "ideal sink", "impl_calls": probe.calls, "model": oc}));
+    }
+    let mut scripts: Vec<(Vec<(usize, Fault)>, bool)> = Vec::new();
+    let positions: Vec<usize> = if calls <= (if thorough { 1200 } else { 160 }) {
+        (0..calls).collect()
+    } else {
+        let mut v: Vec<usize> = (0..20).collect();
+        for _ in 0..(if thorough { 300 } else { 50 }) {
+            v.push(p.below(calls as u64) as usize);
+        }
+        // the multi-byte (payload) calls are where a short write matters
+        let multi: Vec<usize> = probe.requested.iter().enumerate().filter(|(_, l)| **l > 1).map(|(i, _)| i).collect();
+        for _ in 0..(if thorough { 200 } else { 40 }) {
+            if !multi.is_empty() {
+                v.push(*p.pick(&multi));
+            }
+        }
+        v.sort();
+        v.dedup();
+        v
+    };
+    for i in positions {
+        scripts.push((vec![(i, Fault::Err)], false));
+        let req = probe.requested.get(i).cloned().unwrap_or(1);
+        if req > 1 {
+            scripts.push((vec![(i, Fault::Acc(p.range(1, req as u64 - 1) as usize))], false));
+            scripts.push((vec![(i, Fault::Acc(0))], false));
+            rep.count("sink_positions_payload");
+        } else if req == 1 {
+            scripts.push((vec![(i, Fault::Acc(0))], false));
+            rep.count("sink_positions_single_byte");
+        } else {
+            scripts.push((vec![(i, Fault::Acc(0))], false));
+            rep.count("sink_positions_empty_payload");
+        }
+        if p.chance(1, 8) && calls > 1 {
+            let j = p.below(calls as u64) as usize;
+            scripts.push((vec![(i, Fault::Acc(1)), (j, Fault::Err)], p.chance(1, 2)));
+        }
+    }
+    scripts.push((vec![], true));
+    for (script, flush) in scripts {
+        rep.evaluations += 1;
+        dbg(&format!("sink script {}", script_string(&script)));
+        rep.count("sink_fsm_cases");
+        let run = real_sink_fsm(&fsm, &script, flush);
+        let m = model.ask(&format!("codec sink-fsm {} {} {}", script_string(&script), if flush { 1 } else { 0 }, tokens));
+        rep.nontrivial.insert(format!("SF|{:x}|{}|{}", fxhash(&img), script_string(&script), flush));
+        if m != run.line() {
+            let mut j = case_json(c, origin);
+            j["what"] = json!("sink fsm");
+            j["script"] = script_json(&script);
+            j["impl"] = json!(short(&run.line()));
+            j["model"] = json!(short(&m));
+            rep.disagree(j);
+        }
+        let mut j = case_json(c, origin);
+        j["case"] = json!("sink-fsm");
+        j["script"] = script_json(&script);
+        j["flush_fails"] = json!(flush);
+        sink_oracle(&run, &img, &script, flush, rep, j);
+    }
+    rep.sample(json!({"xml": short(&c.xml), "image_bytes": img.len(), "sink_calls": calls}));
+}
+
+pub fn run_c18(args: &Args, model: &mut Model) -> Report {
+    let mut rep = Report::new(
+        "c18",
+        "X = (image, cut): an image written by the real FsmWriter from a generated document, cut at byte n (every n for \
+         small images, otherwise the first 40, the last 24, primitive-call boundaries ±1 and random positions) and read \
+         by the real FsmReader under catch_unwind; SF = (model, sink script): the real FsmWriter run against a scripted \
+         std::io::Write that fails / accepts k bytes at write call i (every i for small models; error, short and \
+         zero-length answers, double faults, failing flush); SP = the same for sequences of primitive writer calls. \
+         Distinct by (image hash, cut) resp. (input hash, script); all need the real code to decide",
+    );
+    if let Some(path) = &args.replay {
+        let v: Value = serde_json::from_str(&std::fs::read_to_string(path).unwrap()).unwrap();
+        if v.get("replay_ops").is_some() {
+            let script = parse_script(v["script"].as_str().unwrap_or("."));
+            check_sink_prims(&ops_from_replay(&v["replay_ops"]), &script, false, model, &mut rep, "replay");
+        } else if v.get("xml").is_some() {
+            let c = FsmCase {
+                xml: v["xml"].as_str().unwrap().to_string(),
+                augment: v["augment"].as_str().map(|s| s.parse().unwrap()),
+                behave: false,
+                events: vec![],
+            };
+            let mut p = Prng::new(1);
+            check_c18_fsm(&c, true, &mut p, model, &mut rep, "replay");
+        }
+        return rep;
+    }
+    // corpus: the witnesses of the Lean counterexample theorems
+    let mk = |xml: String| FsmCase { xml, augment: None, behave: false, events: vec![] };
+    let corpus = vec![
+        // C18_read_counterexample_*: the smallest model; cut after the version string panics, a later cut is Ok
+        mk(format!("{} datamodel=\"null\"><state id=\"s\"/></scxml>", SX)),
+        // C18_short_counterexample: a name of two bytes, sink accepting one byte per call
+        mk(format!("{} datamodel=\"null\" name=\"ab\"><state id=\"s\"><transition event=\"go\" target=\"s\"/></state></scxml>", SX)),
+        mk(format!("{} initial=\"s0\" datamodel=\"ecmascript\"><state id=\"s0\"><transition event=\"go\" target=\"end\"/></state><final id=\"end\"><onentry><log expr=\"'Finished!!!'\"/></onentry></final></scxml>", SX)),
+    ];
+    for c in &corpus {
+        let mut p = Prng::new(7);
+        check_c18_fsm(c, true, &mut p, model, &mut rep, "corpus");
+    }
+    check_sink_prims(&[WOp::S("ab".into())], &[(1, Fault::Acc(1))], false, model, &mut rep, "corpus");
+    check_sink_prims(&[WOp::S("ab".into()), WOp::U(1)], &[(0, Fault::Err)], false, model, &mut rep, "corpus");
+    check_sink_prims(&[WOp::U(300), WOp::B(true)], &[(1, Fault::Acc(0))], false, model, &mut rep, "corpus");
+    let (nf, np) = if args.thorough { (400, 6000) } else { (28, 500) };
+    for i in 0..nf {
+        let mut p = Prng::for_case(args.seed ^ 0xC18, i);
+        let c = {
+            let (xml, counts) = {
+                let mut g = gen::DocGen::new(&mut p, false, false);
+                g.small = i % 4 != 3;
+                let x = g.document();
+                (x, g.counts)
+            };
+            for (k, v) in counts {
+                rep.add(&format!("doc_{}", k), v);
+            }
+            FsmCase { xml, augment: if p.chance(1, 4) { Some(p.next()) } else { None }, behave: false, events: vec![] }
+        };
+        check_c18_fsm(&c, args.thorough, &mut p, model, &mut rep, &format!("gen c18 seed={} index={}", args.seed, i));
+    }
+    for i in 0..np {
+        let mut p = Prng::for_case(args.seed ^ 0x51C8, i);
+        let ops: Vec<WOp> = gen_prim_case(&mut p)
+            .into_iter()
+            .map(|o| match o {
+                // strings of 4096 and more are C05's business; keep them below here
+                WOp::S(s) if s.len() >= 4096 => WOp::S(make_string(s.len() % 4096, "a", 0)),
+                WOp::O(Some(s)) if s.len() >= 4096 => WOp::O(Some(make_string(s.len() % 4096, "é", 1))),
+                WOp::D(_) => WOp::D(gen_data(&mut p, 1, false)),
+                o => o,
+            })
+            .collect();
+        let rops = realise(&ops);
+        let probe = real_sink_prims(&rops, &[], false);
+        let calls = probe.calls.max(1);
+        let n = p.range(1, 2);
+        let mut script = Vec::new();
+        for _ in 0..n {
+            let i = p.below(calls as u64) as usize;
+            let req = probe.requested.get(i).cloned().unwrap_or(1);
+            let f = match p.below(3) {
+                0 => Fault::Err,
+                1 => Fault::Acc(0),
+                _ => Fault::Acc(if req > 1 { p.range(1, req as u64 - 1) as usize } else { 1 }),
+            };
+            if !script.iter().any(|(j, _): &(usize, Fault)| *j == i) {
+                script.push((i, f));
+            }
+        }
+        check_sink_prims(&ops, &script, false, model, &mut rep, &format!("gen sink-prims seed={} index={}", args.seed, i));
+    }
+    rep
 }
